@@ -77,6 +77,14 @@ def run_variant(job):
         rot = probes.structured_unitary(d, rot_kind)
     rho0_eig = probes.generic_rho(d, seed)
     rho0 = rot @ rho0_eig @ rot.conj().T
+    # "for every initial state": the same matrix is handed over in different memory layouts
+    lay = (sum(abs(int(x)) for x in case["o"]) + len(case.get("sh", ())) + int(case.get("N", 0))) % 3
+    if lay == 1:
+        rho0 = np.asfortranarray(rho0)
+    elif lay == 2:
+        big = np.zeros((2 * d, 2 * d), dtype=complex)
+        big[::2, ::2] = rho0
+        rho0 = big[::2, ::2]
     coupling = rot @ np.diag(np.array(case["o"], dtype=float)) @ rot.conj().T
     if rot_kind == "id":
         coupling = np.diag(np.array(case["o"], dtype=float))
